@@ -521,6 +521,23 @@ func c25Gen(r *rand.Rand, n int, tier string, emit func(...string)) {
 		if r.Intn(5) < 2 {
 			mode = "flag"
 		}
+		if r.Intn(12) == 0 {
+			// name reuse across a COMPLETED drop: open X, write, flush, drop X, flush, X again, write, flush, restart
+			vu.Stat("sweep_name_reuse_after_completed_drop")
+			x := strconv.Itoa(r.Intn(3))
+			y := strconv.Itoa(3 + r.Intn(2))
+			in := []string{mode, "ff666c", "1", ";", "P", x, "61", "31", ";", "P", y, "62", "32", ";", "F", "01",
+				";", "X", x, ";", "F", "02"}
+			if r.Intn(2) == 0 {
+				in = append(in, ";", "O", x)
+			}
+			in = append(in, ";", "P", x, c25Keys[r.Intn(3)], c25Val(r), ";", "F", "03")
+			if r.Intn(2) == 0 {
+				in = append(in, ";", "R", ";", "P", x, "63", "33", ";", "F", "04")
+			}
+			emit(in...)
+			continue
+		}
 		fk := []string{"ff666c", "00", "6b", "-"}[r.Intn(4)] // "-": the empty flush-ID key
 		// scales: 1 (never split), mid, and the exact boundaries n*scale == IdealBatchSize for n = 1, 2, 4, 5, 8
 		scale := []int{1, 1, 15000, 30000, 110000, 102400, 51200, 25600, 20480, 12800}[r.Intn(10)]
